@@ -2707,3 +2707,7 @@ mod tests {
         }
     }
 }
+
+#[cfg(feature = "verif")]
+#[path = "verif.rs"]
+pub mod verif;
